@@ -120,6 +120,14 @@ package hessian
 //@ func (*Decoder).skipTagged
 //@   depth [C14:decode-depth] rank 2 measure len(@in) - @pos + 1
 //@   assigns @pos, @E, @declared, @rset, @nvals, @selfregs, @lastreader, @calls, @dstartcls, @dstartrefs, @dstarttyps, d.typList, d.refList, d.clsDefList
+//@   let sp = old(@pos)
+//@   proves [C05,C06:skip-null-bool]   tag == 'N' || tag == 'T' || tag == 'F' ==> err == nil && @pos == sp
+//@   proves [C05,C06:skip-int]         G.isInt(tag) && sp + G.intRest(tag) <= len(@in) ==> err == nil && @pos == sp + G.intRest(tag)
+//@   proves [C05,C06:skip-long]        G.isLong(tag) && sp + G.longRest(tag) <= len(@in) ==> err == nil && @pos == sp + G.longRest(tag)
+//@   proves [C05,C06:skip-double]      G.isDouble(tag) && sp + G.doubleRest(tag) <= len(@in) ==> err == nil && @pos == sp + G.doubleRest(tag)
+//@   proves [C05,C06:skip-ref]         tag == 0x51 && sp < len(@in) && G.isInt(@in[sp]) && sp + 1 + G.intRest(@in[sp]) <= len(@in) ==> err == nil && @pos == sp + 1 + G.intRest(@in[sp])
+//@   proves [C05,C09:skip-string-via-reader] G.isStr(tag) ==> @lastreader == 10
+//@   proves [C05,C09:skip-binary-via-reader] G.isBin(tag) && !G.isStr(tag) ==> @lastreader == 9
 //@   loop 1 invariant [C14,C05:skip-object-fields] 0 <= i && len(d.clsDefList) >= len(old(d.clsDefList)) && len(d.refList) >= len(old(d.refList)) && len(d.typList) >= len(old(d.typList))
 //@   loop 1 decreases count - i
 //@   loop 2 invariant [C14,C05:skip-map-entries] len(d.clsDefList) >= len(old(d.clsDefList)) && len(d.refList) >= len(old(d.refList)) && len(d.typList) >= len(old(d.typList))
@@ -156,6 +164,7 @@ package hessian
 //@   loop 1 invariant [C03,C06:typedlist-one-value-per-element] @nvals == old(@nvals) + j
 //@   loop 1 decreases ite(isVariableArr, len(@in) - @pos, length - j)
 //@   loop 1 invariant [C04:typedlist-registered-first] @selfregs == old(@selfregs) + 1 && len(d.refList) >= len(old(d.refList)) + 1 && len(d.clsDefList) >= len(old(d.clsDefList)) && len(d.refList) >= len(old(d.refList)) && len(d.typList) >= len(old(d.typList))
+//@   proves  [C04,C03:typedlist-complete] err == nil && result0 != nil ==> holder.complete
 //@   proves  [C03,C06:typedlist-count]   err == nil && result0 != nil && tag != 0x55 ==> @nvals == old(@nvals) + length
 //@   proves  [C03:typedlist-compact-len] err == nil && result0 != nil && 0x70 <= tag && tag <= 0x77 ==> length == int(tag) - 0x70
 //@   ensures [C04:typedlist-registered]  err == nil && result0 != nil ==> @selfregs == old(@selfregs) + 1
@@ -171,6 +180,7 @@ package hessian
 //@   loop 1 invariant [C03,C06:untypedlist-one-value-per-element] @nvals == old(@nvals) + j
 //@   loop 1 decreases ite(isVariableArr, len(@in) - @pos, length - j)
 //@   loop 1 invariant [C04:untypedlist-registered-first] @selfregs == old(@selfregs) + 1 && len(d.refList) >= len(old(d.refList)) + 1 && len(d.clsDefList) >= len(old(d.clsDefList)) && len(d.refList) >= len(old(d.refList)) && len(d.typList) >= len(old(d.typList))
+//@   proves  [C04,C03:untypedlist-complete] err == nil && result0 != nil ==> holder.complete
 //@   proves  [C03,C06:untypedlist-count]   err == nil && result0 != nil && tag != 0x57 ==> @nvals == old(@nvals) + length
 //@   proves  [C03:untypedlist-compact-len] err == nil && result0 != nil && 0x78 <= tag && tag <= 0x7f ==> length == int(tag) - 0x78
 //@   ensures [C04:untypedlist-registered]  err == nil && result0 != nil ==> @selfregs == old(@selfregs) + 1
